@@ -41,6 +41,9 @@ def run_case(c):
                             continue
                         if g2.fchans >= 3:         # blimpy's .h5 reader needs at least 3 channels
                             fr = g2
+                    elif op[0] == "retime":
+                        # what Cadence.overwrite_times does to its frames: the start time is simply assigned
+                        fr.t_start = fr.t_start + op[1]
                     elif op[0] == "save":
                         fn = os.path.join(d, "mid%d.%s" % (k, op[1])); k += 1
                         (fr.save_fil if op[1] == "fil" else fr.save_h5)(fn)
